@@ -9,6 +9,9 @@
                                                surviving mutant; record which checks exit 1 (--first: stop at the
                                                first check that does, broad checks first)
 
+  tools/mutate.py report <sweep.json> <survivors.json> <out.md>
+                                            -> summary table
+
 Everything happens in scratch copies of /repo/src under a temp dir outside /repo and /verif, removed afterwards.
 Mutation operators: comparison flips (< <=, > >=, == !=, is / is not, in / not in), and / or, removal of `not`,
 negated `if` tests, small integer constants +1, True / False, + / -, and deletion of simple statements
@@ -276,5 +279,40 @@ def main():
                   'CAUGHT by ' + ','.join(sorted(m['caught_by'])) if m['caught_by'] else 'MISSED', flush=True)
 
 
+def report(sweep, survivors, out):
+    done = json.load(open(sweep))
+    surv = json.load(open(survivors))
+    tried = len(surv)
+    alive = sum(1 for m in surv if m.get('survives_repo_tests'))
+    caught = [m for m in done if m['caught_by']]
+    missed = [m for m in done if not m['caught_by']]
+    import collections
+    by_check = collections.Counter(c for m in caught for c in m['caught_by'])
+    lines = ['# Mechanical mutation sweep (tools/mutate.py; DESIGN.md section 12)', '',
+             '%d of the %d mutants of src/h2 were applied (fixed pseudo-random order); %d of them survive the '
+             "repository's 1403 baseline tests.  %d survivors were judged against the quick checks (case counts "
+             'divided as stated in DESIGN.md, first catching check only): %d caught, %d not.' %
+             (tried, len(all_mutants()), alive, len(done), len(caught), len(missed)), '',
+             'First catching check: ' + ', '.join('%s %d' % kv for kv in sorted(by_check.items())), '',
+             '## Survivors of both (each classified by hand in DESIGN.md section 12)', '',
+             '| file | line | operator | from | to |', '|---|---|---|---|---|']
+    for m in missed:
+        lines.append('| %s | %d | %s | `%s` | `%s` |' % (m['file'], m['line'], m['what'],
+                                                     m['old'][:60].replace('\n', ' ').replace('|', '/'),
+                                                     m['new'][:40].replace('\n', ' ').replace('|', '/')))
+    lines += ['', '## Caught', '', '| file | line | operator | from | to | first catching check: key |',
+              '|---|---|---|---|---|---|']
+    for m in caught:
+        c, keys = sorted(m['caught_by'].items())[0]
+        lines.append('| %s | %d | %s | `%s` | `%s` | %s: %s |' % (
+            m['file'], m['line'], m['what'], m['old'][:50].replace('\n', ' ').replace('|', '/'),
+            m['new'][:30].replace('\n', ' ').replace('|', '/'), c, keys[0][:90].replace('|', '/')))
+    open(out, 'w').write('\n'.join(lines) + '\n')
+    print('tried %d alive %d judged %d caught %d missed %d' % (tried, alive, len(done), len(caught), len(missed)))
+
+
 if __name__ == '__main__':
-    main()
+    if len(sys.argv) > 1 and sys.argv[1] == 'report':
+        report(sys.argv[2], sys.argv[3], sys.argv[4])
+    else:
+        main()
